@@ -366,6 +366,115 @@ pub fn print_program(p: &mut Vec<S>) -> String {
     pr.text
 }
 
+
+// ------------------------------------------------------------------ the nesting matrix
+
+/// the ten ways a block can be enclosed: five loops (different bounds and steps, so that a mixed-up
+/// loop frame shows) and five branch positions (THEN, ELSEIF, ELSE, a CASE that is not the first, CASE ELSE)
+pub const NEST_KINDS: usize = 10;
+
+fn lit_i(n: i32) -> E {
+    if n < 0 { e(EK::Un(0, Box::new(e(EK::Lit(Lit::Int(-n)))))) } else { e(EK::Lit(Lit::Int(n))) }
+}
+fn bin(op: Operator, l: E, r: E) -> E {
+    e(EK::Bin(bop_index(op), Box::new(l), Box::new(r)))
+}
+fn var(n: &str) -> E {
+    e(EK::Var(n.to_string()))
+}
+fn print_str(t: &str) -> S {
+    s(SK::Print(vec![PArg::Expr(e(EK::Lit(Lit::Str(t.into()))))]))
+}
+
+/// wraps [body] in a construct of the given kind; [id] makes the counter names unique; the names of
+/// the counters are appended to [counters]
+pub fn nest_wrap(kind: usize, id: usize, mut body: Vec<S>, counters: &mut Vec<String>) -> Vec<S> {
+    match kind {
+        0 => {
+            let v = format!("N{}%", id);
+            counters.push(v.clone());
+            vec![s(SK::For(v, lit_i(1), lit_i(2), None, body))]
+        }
+        1 => {
+            let v = format!("N{}%", id);
+            counters.push(v.clone());
+            vec![s(SK::For(v, lit_i(3), lit_i(2), Some(lit_i(-1)), body))]
+        }
+        2 => {
+            let v = format!("N{}&", id);
+            counters.push(v.clone());
+            vec![s(SK::For(v, lit_i(10), lit_i(30), Some(lit_i(20)), body))]
+        }
+        3 => {
+            let v = format!("N{}%", id);
+            counters.push(v.clone());
+            body.push(s(SK::Assign(v.clone(), bin(Operator::Plus, var(&v), lit_i(1)))));
+            vec![s(SK::Assign(v.clone(), lit_i(0))), s(SK::While(bin(Operator::Less, var(&v), lit_i(2)), body))]
+        }
+        4 => {
+            let v = format!("N{}%", id);
+            counters.push(v.clone());
+            body.push(s(SK::Assign(v.clone(), bin(Operator::Plus, var(&v), lit_i(1)))));
+            vec![s(SK::Assign(v.clone(), lit_i(5))), s(SK::Do(false, true, bin(Operator::GreaterOrEqual, var(&v), lit_i(7)), body))]
+        }
+        5 => vec![s(SK::If(bin(Operator::Equal, lit_i(1), lit_i(1)), body, vec![], Some(vec![print_str("x")])))],
+        6 => vec![s(SK::If(bin(Operator::Equal, lit_i(1), lit_i(2)), vec![print_str("n")], vec![(bin(Operator::Equal, lit_i(2), lit_i(2)), body)], Some(vec![print_str("e")])))],
+        7 => vec![s(SK::If(bin(Operator::Equal, lit_i(1), lit_i(2)), vec![print_str("n")], vec![], Some(body)))],
+        8 => vec![s(SK::Select(lit_i(2), vec![(vec![CaseE::Simple(lit_i(9))], vec![print_str("n")]), (vec![CaseE::Range(lit_i(1), lit_i(3))], body)], Some(vec![print_str("e")])))],
+        _ => vec![s(SK::Select(lit_i(7), vec![(vec![CaseE::Simple(lit_i(1))], vec![print_str("n")])], Some(body)))],
+    }
+}
+
+/// the program for one (outer, middle, inner) triple of kinds: the innermost block prints all
+/// enclosing counters; every level prints a mark after its inner construct
+pub fn nest_program(outer: usize, mid: usize, inner: usize) -> Vec<S> {
+    let mut counters: Vec<String> = vec![];
+    // names are fixed by the level so that the innermost PRINT can be written first
+    let names: Vec<String> = [(outer, 1), (mid, 2), (inner, 3)]
+        .iter()
+        .filter(|(k, _)| *k < 5)
+        .map(|(k, id)| if *k == 2 { format!("N{}&", id) } else { format!("N{}%", id) })
+        .collect();
+    let mut items: Vec<PArg> = vec![];
+    for n in names.iter() {
+        items.push(PArg::Expr(var(n)));
+        items.push(PArg::Semi);
+    }
+    items.push(PArg::Expr(e(EK::Lit(Lit::Str("*".into())))));
+    let innermost = vec![s(SK::Print(items))];
+    let mut b3 = nest_wrap(inner, 3, innermost, &mut counters);
+    b3.push(print_str("c"));
+    let mut b2 = nest_wrap(mid, 2, b3, &mut counters);
+    b2.push(print_str("b"));
+    let mut b1 = nest_wrap(outer, 1, b2, &mut counters);
+    b1.push(print_str("a"));
+    b1
+}
+
+/// all triples (thorough), or the triples with at least two loops plus a seeded sample of the rest
+pub fn nest_matrix(rng: &mut Rng, all: bool, sample: usize) -> Vec<(String, Vec<S>)> {
+    let mut v = vec![];
+    let mut rest = vec![];
+    for o in 0..NEST_KINDS {
+        for m in 0..NEST_KINDS {
+            for i in 0..NEST_KINDS {
+                let loops = [o, m, i].iter().filter(|k| **k < 5).count();
+                let item = (format!("nest {}-{}-{}", o, m, i), nest_program(o, m, i));
+                if all || (loops == 2 && (o < 5 && i < 5) && m >= 5 && (o + m + i) % 2 == 0) {
+                    v.push(item);
+                } else {
+                    rest.push(item);
+                }
+            }
+        }
+    }
+    for _ in 0..sample.min(rest.len()) {
+        let k = rng.below(rest.len() as u64) as usize;
+        v.push(rest.swap_remove(k));
+    }
+    v
+}
+
 // ------------------------------------------------------------------ Coq printers
 
 fn pos_c(p: (u32, u32)) -> String {
@@ -1048,10 +1157,18 @@ pub fn run(args: &Args) {
     }
     let n = if args.thorough() { 6000 } else { 1200 };
     let _ = leg_name(0);
-    for k in 0..n {
-        let mut g = Gen { rng: &mut rng, loop_counter: 0 };
-        let depth = if args.thorough() { 2 + (k % 2) as u32 } else { 2 };
-        let mut prog = g.program(depth, if args.thorough() { 5 } else { 4 });
+    let nests = nest_matrix(&mut rng, args.thorough(), 60);
+    let n_nests = nests.len();
+    let mut nests = nests.into_iter();
+    for k in 0..(n + n_nests) {
+        let mut prog = if let Some((_, p)) = nests.next() {
+            sum.count("nesting_matrix_programs");
+            p
+        } else {
+            let mut g = Gen { rng: &mut rng, loop_counter: 0 };
+            let depth = if args.thorough() { 2 + (k % 2) as u32 } else { 2 };
+            g.program(depth, if args.thorough() { 5 } else { 4 })
+        };
         let src = print_program(&mut prog);
         evaluations += 1;
         let (igr, udts) = match compile_with_types(&src) {
@@ -1132,6 +1249,6 @@ pub fn run(args: &Args) {
     sum.write(
         &args.out,
         evaluations,
-        "programs generated from the core grammar by a typed generator (expressions of depth <= 2 over the 13 binary and 2 unary operators, five value types, boundary literals; assignment, PRINT with separators, IF/ELSEIF/ELSE, WHILE, the four DO forms, FOR with positive, negative, absent and run-time computed STEP, SELECT CASE with simple/IS/range/multiple tests; nesting depth 2 (quick) / 3 (thorough)); run-time errors arise from the boundary literals (overflow, division by zero, zero step). For each program: literal comparison of the real instruction list and statement addresses with the Coq generator model; outcome (code, row, col), output bytes and final variables against the Coq VM model and against the big-step reference semantics. Cases whose output contains a number outside the exactly printable domain skip the byte comparison. Non-trivial = at least one control construct; distinct by instruction list.",
+        "programs generated from the core grammar by a typed generator (expressions of depth <= 2 over the 13 binary and 2 unary operators, five value types, boundary literals; assignment, PRINT with separators, IF/ELSEIF/ELSE, WHILE, the four DO forms, FOR with positive, negative, absent and run-time computed STEP, SELECT CASE with simple/IS/range/multiple tests; nesting depth 2 (quick) / 3 (thorough)); plus the nesting matrix: every (outer, middle, inner) triple over five loop kinds with different bounds and steps and five branch positions (THEN, ELSEIF, ELSE, a later CASE, CASE ELSE), the innermost block printing all enclosing counters - all 1000 triples (thorough) / the loop-branch-loop triples and a seeded sample (quick); run-time errors arise from the boundary literals (overflow, division by zero, zero step). For each program: literal comparison of the real instruction list and statement addresses with the Coq generator model; outcome (code, row, col), output bytes and final variables against the Coq VM model and against the big-step reference semantics. Cases whose output contains a number outside the exactly printable domain skip the byte comparison. Non-trivial = at least one control construct; distinct by instruction list.",
     );
 }
